@@ -34,50 +34,8 @@ Qed.
 Lemma nth_In_forallb (f : ty -> bool) l k d : forallb f l = true -> (k < length l)%nat -> f (nth k l d) = true.
 Proof. intros F H. rewrite forallb_forall in F. apply F. apply nth_In. exact H. Qed.
 
-Lemma width_eqb_refl w : width_eqb w w = true.
-Proof. destruct w; reflexivity. Qed.
-
-Lemma ty_eqb_refl t : ty_eqb t t = true.
-Proof.
-  induction t; cbn [ty_eqb]; rewrite ?width_eqb_refl, ?Bool.eqb_reflx, ?IHt; reflexivity.
-Qed.
-
-Lemma ty_eqb_eq a : forall b, ty_eqb a b = true -> a = b.
-Proof.
-  induction a; intros b; destruct b; cbn [ty_eqb]; intros H; try discriminate; try reflexivity;
-    repeat match goal with
-           | H : _ && _ = true |- _ => apply andb_true_iff in H as [? ?]
-           | H : Bool.eqb _ _ = true |- _ => apply Bool.eqb_prop in H; subst
-           | H : width_eqb ?x ?y = true |- _ => destruct x, y; try discriminate; clear H
-           end; try reflexivity.
-  f_equal. apply IHa. assumption.
-Qed.
-
 Lemma assignable_refl t : assignable t t = true.
 Proof. unfold assignable. rewrite ty_eqb_refl. reflexivity. Qed.
-
-(* ---- parameter types that a value built by toNative can be assigned to ---- *)
-(* the predeclared type itself; for byte slices any slice type whose element type is
-   exactly uint8 (the slice type may be user-defined: []byte is not a named type) *)
-Definition param_safe (t : ty) : bool :=
-  match t with
-  | TBool d | TInt _ d | TUint _ d | TFloat32 d | TFloat64 d | TString d => negb d
-  | TSlice e _ => ty_eqb e (TUint W8 false)
-  | _ => false
-  end.
-
-Theorem assignable_plain_iff t : valid_native_type t = true ->
-  (assignable (plain_of t) t = true <-> param_safe t = true).
-Proof.
-  destruct t as [d|w d|w d|d|d|d|e d| |]; cbn [valid_native_type kind_of]; intros V; try discriminate;
-    unfold plain_of, assignable; cbn [kind_of ty_eqb underlying is_named param_safe negb orb];
-    try (destruct d; try destruct w; cbn; split; congruence).
-  (* slices *)
-  unfold byte_slice. cbn [ty_eqb underlying is_named negb].
-  destruct e as [| |[] de| | | | | |]; cbn [ty_eqb width_eqb kind_of is_uint8_kind andb orb] in *;
-    try discriminate; try (split; congruence).
-  destruct de, d; cbn; split; congruence.
-Qed.
 
 Section Prims.
   Variable parse_float : bytes -> option fnum.
@@ -200,11 +158,13 @@ Section Prims.
     intros W A Hvt. induction args as [|a rest IH]; intros i Hi Hnv; [reflexivity|].
     cbn [Native.build_args spec_args]. rewrite zlen_cons in Hnv. pose proof (zlen_nonneg rest) as Hr.
     rewrite (arg_type_ok s vt i W Hvt Hi) by (intros V; specialize (Hnv V); lia).
-    cbn [nbind]. rewrite to_native_conv.
-    - cbn [nbind]. rewrite IH; [reflexivity|lia|intros V; specialize (Hnv V); lia].
-    - apply param_ty_valid; try assumption; [intros V; specialize (Hnv V); lia|apply wf_variadic_nonempty; exact W].
+    cbn [nbind].
+    assert (Hv : valid_native_type (param_ty s i) = true).
+    { apply param_ty_valid; try assumption; [intros V; specialize (Hnv V); lia|apply wf_variadic_nonempty; exact W]. }
+    pose proof (to_native_conv parse_float parse_prefix fmt_float a (param_ty s i) Hv) as Hc.
+    destruct (to_native a (param_ty s i)) as [v0|k]; cbn [nbind] in Hc |- *; [|discriminate].
+    rewrite Hc. cbn [nbind]. rewrite IH; [reflexivity|lia|intros V; specialize (Hnv V); lia].
   Qed.
-
   Lemma zero_fill_spec s : forall count i, 0 <= i -> (count <> 0%nat -> i + Z.of_nat count <= zlen (params s)) ->
     zero_fill s i count = NOk (map zero_value (firstn count (skipn (Z.to_nat i) (params s)))).
   Proof.
@@ -260,30 +220,15 @@ Section Prims.
     cbn [nbind]. rewrite Hb. reflexivity.
   Qed.
 
-  Definition params_safe (s : sig) : bool := forallb param_safe (eff_params s).
-
-  Lemma param_ty_safe s i : wf_sig s -> params_safe s = true ->
-    0 <= i -> (variadic s = false -> i < zlen (params s)) -> param_safe (param_ty s i) = true.
-  Proof.
-    intros W A Hi Hnv. unfold param_ty. pose proof (eff_params_len s W) as L. unfold zlen in *.
-    pose proof (wf_variadic_nonempty s W) as Hne. unfold zlen in Hne.
-    destruct (variadic s) eqn:V; cbn [andb].
-    - specialize (Hne eq_refl).
-      destruct (Z.of_nat (length (params s)) - 1 <=? i) eqn:E; [apply Z.leb_le in E|apply Z.leb_gt in E];
-        apply nth_In_forallb; try exact A; lia.
-    - specialize (Hnv eq_refl). apply nth_In_forallb; [exact A|lia].
-  Qed.
-
   Lemma spec_args_assignable s : wf_sig s -> forallb valid_native_type (eff_params s) = true ->
-    params_safe s = true -> forall args i, 0 <= i ->
+    forall args i, 0 <= i ->
     (variadic s = false -> i + zlen args <= zlen (params s)) -> all_assignable s i (spec_args s i args).
   Proof.
-    intros W A S. induction args as [|a rest IH]; intros i Hi Hnv; [exact I|].
+    intros W A. induction args as [|a rest IH]; intros i Hi Hnv; [exact I|].
     cbn [spec_args all_assignable]. rewrite zlen_cons in Hnv. pose proof (zlen_nonneg rest).
     split.
-    - rewrite gty_conv. apply assignable_plain_iff.
-      + apply param_ty_valid; try assumption; [intros V; specialize (Hnv V); lia|apply wf_variadic_nonempty; exact W].
-      + apply param_ty_safe; try assumption. intros V; specialize (Hnv V); lia.
+    - rewrite gty_conv; [apply assignable_refl|].
+      apply param_ty_valid; try assumption; [intros V; specialize (Hnv V); lia|apply wf_variadic_nonempty; exact W].
     - apply IH; [lia|intros V; specialize (Hnv V); lia].
   Qed.
 
@@ -337,13 +282,13 @@ Section Prims.
     - intros V. destruct Har as [Hv|Hle]; [congruence|lia].
   Qed.
 
-  (* part 2: with parameter types of predeclared types, Call accepts the list *)
+  (* part 2: reflect.Call accepts the list (every value has its parameter's own type) *)
   Theorem reflect_call_accepts s body args :
-    wf_sig s -> forallb valid_native_type (eff_params s) = true -> params_safe s = true ->
+    wf_sig s -> forallb valid_native_type (eff_params s) = true ->
     (variadic s = true \/ zlen args <= zlen (params s)) ->
     reflect_call (s, body) (spec_values s args) = NOk (body (spec_values s args)).
   Proof.
-    intros W A S Har. unfold reflect_call.
+    intros W A Har. unfold reflect_call.
     pose proof (spec_values_len s args) as L. pose proof (zlen_nonneg args) as Ha.
     assert (Hcount : (if variadic s then zlen (spec_values s args) <? zlen (params s) - 1
                       else negb (zlen (spec_values s args) =? zlen (params s))) = false).
@@ -365,8 +310,6 @@ Section Prims.
   Definition body_ok (s : sig) (body : list gval -> list gval) : Prop :=
     forall vals, Forall2 (fun t o => gty o = t /\ data_fits t (gdat o)) (results s) (body vals).
 
-  Definition results_safe (s : sig) : bool := forallb (fun t => ty_eqb t TError || result_safe t) (results s).
-
   (* the value/err dispatch, given what the body returns *)
   Inductive returns (s : sig) (outs : list gval) (values : list gval) : call_result -> Prop :=
   | ret_none : outs = [] -> returns s outs values (CValue VNull values)
@@ -375,75 +318,41 @@ Section Prims.
   | ret_two_err o e id : outs = [o; e] -> gdat e = DErr id -> returns s outs values (CError id values).
 
   Theorem finish_ok s body args :
-    wf_sig s -> acceptable_sig s = true -> params_safe s = true -> results_safe s = true -> body_ok s body ->
+    wf_sig s -> acceptable_sig s = true -> body_ok s body ->
     (variadic s = true \/ zlen args <= zlen (params s)) ->
     exists r, finish (s, body) (spec_values s args) = NOk r /\
               returns s (body (spec_values s args)) (spec_values s args) r.
   Proof.
-    intros W A S RS B Har. unfold acceptable_sig in A. apply andb_true_iff in A as [A R].
-    unfold finish. rewrite (reflect_call_accepts s body args W A S Har). cbn [nbind].
-    specialize (B (spec_values s args)). unfold results_safe in RS.
-    destruct (results s) as [|r [|e [|x rs]]]; cbn [results_ok forallb] in R, RS; try discriminate.
+    intros W A B Har. unfold acceptable_sig in A. apply andb_true_iff in A as [A R].
+    unfold finish. rewrite (reflect_call_accepts s body args W A Har). cbn [nbind].
+    specialize (B (spec_values s args)).
+    destruct (results s) as [|r [|e [|x rs]]]; cbn [results_ok] in R; try discriminate.
     - inversion B. eexists; split; [reflexivity|]. apply ret_none. reflexivity.
     - inversion B as [|? o ? tl [Ht Hd] Htl]; subst. inversion Htl; subst.
-      rewrite andb_true_r in RS.
-      assert (RSr : result_safe (gty o) = true).
-      { apply orb_true_iff in RS as [E|E]; [|exact E]. apply ty_eqb_eq in E. rewrite E in R. discriminate. }
-      destruct (from_native_ok o RSr Hd) as (v & Hv). rewrite Hv. cbn [nbind].
+      destruct (from_native_ok o R Hd) as (v & Hv). rewrite Hv. cbn [nbind].
       eexists; split; [reflexivity|]. eapply ret_one; [reflexivity|exact Hv].
     - apply andb_true_iff in R as [R RE]. apply ty_eqb_eq in RE. subst e.
       inversion B as [|? o ? tl [Ht Hd] Htl]; subst. inversion Htl as [|? oe ? tl2 [Hte Hde] Htl2]; subst. inversion Htl2; subst.
-      apply andb_true_iff in RS as [RS _].
-      assert (RSr : result_safe (gty o) = true).
-      { apply orb_true_iff in RS as [E|E]; [|exact E]. apply ty_eqb_eq in E. rewrite E in R. discriminate. }
-      destruct (from_native_ok o RSr Hd) as (v & Hv).
+      destruct (from_native_ok o R Hd) as (v & Hv).
       cbn [data_fits] in Hde. destruct Hde as [Hn|[id Hid]].
       + rewrite Hn, Hv. cbn [nbind]. eexists; split; [reflexivity|]. eapply ret_two_ok; [reflexivity|exact Hn|exact Hv].
       + rewrite Hid. eexists; split; [reflexivity|]. eapply ret_two_err; [reflexivity|exact Hid].
   Qed.
 
-  (* valid_sig_no_panic (with the guard that the pinned tree needs: predeclared parameter types,
-     no user-defined byte-slice result): the call does not panic, the function receives exactly
-     spec_values, and the outcome is the converted result or the function's own error *)
-  Theorem valid_sig_no_panic_partial tbl idx s body args :
-    nindex tbl idx = NOk (s, body) -> wf_sig s -> acceptable_sig s = true ->
-    params_safe s = true -> results_safe s = true -> body_ok s body ->
+  (* valid_sig_no_panic: for every function checkNativeFunc accepts (user-defined types of the
+     documented kinds included) and every permitted argument count, the call does not panic, the
+     function receives exactly spec_values, and the outcome is the converted result or the
+     function's own error *)
+  Theorem valid_sig_no_panic tbl idx s body args :
+    nindex tbl idx = NOk (s, body) -> wf_sig s -> acceptable_sig s = true -> body_ok s body ->
     (variadic s = true \/ zlen args <= zlen (params s)) ->
     exists r, call_native tbl idx args = NOk r /\
               returns s (body (spec_values s args)) (spec_values s args) r.
   Proof.
-    intros Hf W A S RS B Har.
+    intros Hf W A B Har.
     rewrite (call_native_builds tbl idx s body args Hf W); try assumption.
     - apply finish_ok; assumption.
     - unfold acceptable_sig in A. apply andb_true_iff in A as [A _]. exact A.
-  Qed.
-
-  (* the guard on parameter types is necessary: an accepted function whose first parameter is not
-     param_safe panics in reflect.Call on EVERY call that passes an argument (F-C17-4) *)
-  Theorem unsafe_first_param_always_panics tbl idx s body a rest :
-    nindex tbl idx = NOk (s, body) -> wf_sig s -> forallb valid_native_type (eff_params s) = true ->
-    (variadic s = true \/ zlen (a :: rest) <= zlen (params s)) ->
-    param_safe (param_ty s 0) = false ->
-    call_native tbl idx (a :: rest) = NPanic PkCallAssign.
-  Proof.
-    intros Hf W A Har Hus. rewrite (call_native_builds tbl idx s body (a :: rest) Hf W A Har).
-    unfold finish, reflect_call.
-    pose proof (spec_values_len s (a :: rest)) as L. pose proof (zlen_nonneg rest) as Hr.
-    rewrite zlen_cons in *.
-    assert (Hcount : (if variadic s then zlen (spec_values s (a :: rest)) <? zlen (params s) - 1
-                      else negb (zlen (spec_values s (a :: rest)) =? zlen (params s))) = false).
-    { rewrite L. unfold min_in. destruct (variadic s) eqn:V.
-      - apply Z.ltb_ge. lia.
-      - destruct Har as [Hv|Hle]; [discriminate|]. apply negb_false_iff, Z.eqb_eq. lia. }
-    rewrite Hcount. unfold spec_values. cbn [spec_args app].
-    assert (Hnv : variadic s = false -> 0 < zlen (params s)).
-    { intros V. destruct Har as [Hv|Hle]; [congruence|lia]. }
-    rewrite check_assign_first_bad; [reflexivity|exact W|exact Hnv|].
-    rewrite gty_conv.
-    assert (V0 : valid_native_type (param_ty s 0) = true).
-    { apply param_ty_valid; try assumption; [lia|apply wf_variadic_nonempty; exact W]. }
-    destruct (assignable (plain_of (param_ty s 0)) (param_ty s 0)) eqn:E; [|reflexivity].
-    apply (assignable_plain_iff _ V0) in E. congruence.
   Qed.
 
   (* what spec_values is, position by position *)
